@@ -42,7 +42,7 @@ Inductive iomsg :=
 | INone
 | IInvalidChecksum | INoFileStarted | IClosed | ILargeFile | INotExtra
 | IExtraTooLong | IExtraIncomplete | IExtraZip64 | IExtraReserved | IExtraSize
-| IAuthCode | IWriteZero | IFillBuffer | IInjected.
+| IAuthCode | IWriteZero | IFillBuffer | IInjected | IAesTruncated.
 
 Inductive err :=
 | EIo (k : iokind) (m : iomsg)
